@@ -365,10 +365,29 @@ def can_match_later(dfa):
     return seen
 
 
+def lookahead_free(dfa, leaves):
+    """True iff at every state reachable from the start the patterns reported for the text read so far do not depend on
+    the next symbol (all 257 successors carry the same match set): the definition's matches do not use look-ahead."""
+    seen = {dfa.start}
+    stack = [dfa.start]
+    while stack:
+        q = stack.pop()
+        succ = set(dfa.trans[q]) | {dfa.eoi[q]}
+        ms = {tuple(sorted(dfa.matches.get(t, ()))) for t in succ}
+        if len(ms) > 1:
+            return False
+        for t in succ:
+            if t not in seen and t in dfa.trans:
+                seen.add(t)
+                stack.append(t)
+    return True
+
+
 def compare_dfa_graph(dfa, leaves, graph, root, limit=200000):
     """Explores the product of the reference DFA and the logos graph.  Returns (stats, list of mismatches); a mismatch is
     dict(kind, path (bytes / 'EOI' that lead there), detail)."""
     later = can_match_later(dfa)
+    la_free = lookahead_free(dfa, leaves)
     out = []
     seen = {}
     start = (dfa.start, root, None)
@@ -405,6 +424,14 @@ def compare_dfa_graph(dfa, leaves, graph, root, limit=200000):
             break
         sd = graph.states[s]
         row = dfa.trans[q]
+        # promptness (definitions without look-ahead): when the text read is a match and no successor of the reference
+        # state can reach a further match, the item is decided here; the graph state must then have no continuation at
+        # all (a partial lexer answers "need more input" in every state that has an edge)
+        if la_free:
+            succ = set(row) | {dfa.eoi[q]}
+            if all(t not in later for t in succ) and all(dfa.matches.get(t) for t in succ):
+                if any(x is not None for x in sd['edges']) or sd['eoi'] is not None:
+                    report('withheld', st, None, 'the item is decided after this text (it is a match and nothing longer can match), but the graph state%d still has outgoing edges: a partial lexer withholds the item until one more byte arrives' % s)
         # group the 256 bytes by (dfa target, graph target)
         groups = {}
         for b in range(256):
@@ -456,7 +483,7 @@ def compare_dfa_graph(dfa, leaves, graph, root, limit=200000):
                     report('eoi-record', st, 'EOI', 'at end of input the graph result is leaf %s for the text read, the reference leaf %s' % (gi, dm))
                 if any(x is not None for x in t['edges']) or t['eoi'] is not None:
                     report('eoi-continues', st, 'EOI', 'the end-of-input successor state%d has outgoing edges' % sd['eoi'])
-    return dict(product_states=n, dfa_states=len(dfa.trans), graph_states=len(graph.states)), out
+    return dict(product_states=n, dfa_states=len(dfa.trans), graph_states=len(graph.states), lookahead_free=la_free), out
 
 
 def fmt_path(path):
